@@ -151,6 +151,11 @@ func (scanner *uniqueIndexScanner) Next() {
 
 		scanner.current = cursor.Current()
 		cursor.Next()
+		if scanner.current == nil {
+			// a null element of a linked set (a reference that is nil or dangling) is not an entity;
+			// treating it as the current row would end the scan (IsValid tests current != nil)
+			continue
+		}
 		if scanner.store.IsChildStore() && !scanner.store.IsEntityPresent(rowCursor.Tx(), string(scanner.current)) && !scanner.store.IsExtended() {
 			continue
 		}
